@@ -57,11 +57,18 @@ def run_plan(case):
         try:
             import warnings
 
-            with warnings.catch_warnings():
+            import contextlib
+
+            import xarray as xr
+
+            # process-wide xarray options of the application (keep_attrs=False / True, other display settings): they govern the application's
+            # own arithmetic, not what a reader returns
+            xo = xr.set_options(**case["xr_options"]) if case.get("xr_options") else contextlib.nullcontext()
+            with warnings.catch_warnings(), xo:
                 if case.get("strict_warnings"):  # the caller treats warnings as errors (python -W error, pytest filterwarnings = error)
                     warnings.simplefilter("error")
                 tree = ceos_alos2.open_alos2(url, backend_options=dict(use_cache=False, records_per_chunk=case.get("rpc", 2)))
-            proj = project.project_tree(tree)
+                proj = project.project_tree(tree)
         except BaseException as e:  # noqa: B902
             if fo and fs == "vtrace":
                 from . import tracefs
